@@ -1,3 +1,4 @@
+#define VP_AMBIENT_ROUNDING 1 // results of this executor may not depend on the dynamic floating-point rounding mode (drv/vp.h)
 // C05 (queue) — a_que against a std::deque model of (bytes, address); with -DVP_FAULT the
 // queue part of C07 (allocation faults at every request position).
 #include "fault.h"
